@@ -207,4 +207,9 @@ theorem C12_tgen_cstatus :
     cond_caa_tests = "thisLevel.overlapsWith(cd.thisRange) | nextLevel.overlapsWith(cd.nextRange)" ∧
     ord_caa_tests_appends = "before" := by decide
 
+/-- `getKeyRange` returns the empty range for no tables and otherwise
+    `[ParseKey(smallest)@MaxUint64, ParseKey(biggest)@0]`: `getKeyRangeOf` in Props/C14Status.lean. -/
+theorem C14_tgen_getKeyRange :
+    ret_getKeyRange = "keyRange{} | keyRange{ left: y.KeyWithTs(y.ParseKey(smallest), math.MaxUint64), right: y.KeyWithTs(y.ParseKey(biggest), 0), }" := rfl
+
 end Badger
